@@ -1,6 +1,9 @@
 //! Group driver: runs the REAL kanidm code and records observed traces (ndjson) which TLC
 //! validates against the TLA+ specifications in /verif/spec. See /verif/DESIGN.md.
 use kvc::util::Opts;
+mod world;
+mod c23;
+mod c24;
 
 fn main() {
     let args: Vec<String> = std::env::args().collect();
@@ -10,8 +13,9 @@ fn main() {
     }
     let opts = Opts::parse(&args[2..]);
     let rc = match args[1].as_str() {
+        "c23" => c23::run(&opts),
+        "c24" => c24::run(&opts),
         other => {
-            let _ = &opts;
             eprintln!("unknown subcommand {other}");
             2
         }
